@@ -58,6 +58,13 @@ CopperAdj(u) == [q \in Poles(u) |-> {r \in Poles(u) : \E i \in DOMAIN WireList(u
 RECURSIVE PReach(_, _, _)
 PReach(A, front, seen) == IF front = {} THEN seen ELSE LET nx == (UNION {A[q] : q \in front}) \ seen IN PReach(A, nx, seen \cup nx)
 OneGrid(u) == Poles(u) = {} \/ LET q0 == CHOOSE q \in Poles(u) : TRUE IN PReach(CopperAdj(u), {q0}, {q0}) = Poles(u)
+\* poles that a copper wire COULD join (within the reach of both), and the grids that would give
+PoleReachAdj(u) == [q \in Poles(u) |-> {r \in Poles(u) \ {q} : LET m == Min({PR(u, q).preach, PR(u, r).preach}) \div 50 IN Dist2(u, q, r) <= m * m}]
+ReachGrid(u) == Poles(u) = {} \/ LET q0 == CHOOSE q \in Poles(u) : TRUE IN PReach(PoleReachAdj(u), {q0}, {q0}) = Poles(u)
+\* the poles are PLACED in clusters no wire can join, but every cluster has a pole of another cluster within reach * sqrt(2): the
+\* diagonal neighbours of a pole lattice from which the pole in between was trimmed
+BridgeableGap(u) == ~ReachGrid(u) /\ \A q \in Poles(u) : LET C == PReach(PoleReachAdj(u), {q}, {q}) IN
+                      \E a \in C, b \in Poles(u) \ C : LET m == Min({PR(u, a).preach, PR(u, b).preach}) \div 50 IN Dist2(u, a, b) <= 2 * m * m
 \* a pole that is (also) a circuit relay: it carries at least one circuit wire
 IsRelay(u, q) == \E i \in DOMAIN WireList(u) : LET w == WireList(u)[i] IN (w[1] = q /\ w[2] \in {1, 2}) \/ (w[3] = q /\ w[4] \in {1, 2})
 =============================================================================
